@@ -44,6 +44,7 @@ B_limit_gt == {"limit_gt"}
 B_limit_err == {"limit_err"}
 B_noclose_on_limit == {"noclose_on_limit"}
 B_nodone_select == {"nodone_select"}
+B_rewind_first == {"rewind_first"}
 
 \* ---- M2: the complete case table with the expected observables, computed here ----
 KindNo(k) == CHOOSE i \in 1..10 : <<"uri", "uris", "raw", "uripost", "jsonline", "jsonarray", "httpscn", "grpcscn",
